@@ -311,6 +311,69 @@ func runC09(r *vk.Run) {
 		}
 	})
 	r.Require("daemon_window_comparisons", 300)
+	// several containers on the Docker storage, the first-listed one starting LATER than the others:
+	// per container, count_over_time at T is the number of its records in [T-r, T], recounted from the
+	// frames (the merge of the containers' streams feeds the windows in time order)
+	r.Phase("containers", r.N(400, 60000), func(c *vk.Case) {
+		rng := c.Rng
+		n := rng.Range(2, 4)
+		var inv []CSpec
+		for i := 0; i < n; i++ {
+			cs := CSpec{ID: fmt.Sprintf("id%d", i), Name: fmt.Sprintf("/c%d", i), Image: "img", State: "running", Labels: map[string]string{}}
+			first := int64(rng.Intn(6))
+			if i == 0 {
+				first = int64(rng.Range(5, 9)) // the first-listed container is the late one
+			}
+			for j := 0; j < rng.Range(1, 6); j++ {
+				ts := metricT0 + (first+int64(j))*1e9 + int64(rng.Intn(900))*1e6
+				if j > 0 && rng.Chance(1, 3) {
+					ts = cs.Frames[j-1].TS // a burst: two writes (stdout, stderr) at one instant are two records
+				}
+				cs.Frames = append(cs.Frames, Frame{Type: byte(1 + rng.Intn(2)), TS: ts, Body: vk.Pick(rng, []string{"tick", "tick\n", "GET /healthz 200"})})
+			}
+			inv = append(inv, cs)
+		}
+		rg := int64(rng.Range(1, 4)) * 1e9
+		q := fmt.Sprintf(`sum by (container) (count_over_time({container=~"c.+"}[%ds]))`, rg/1e9)
+		start := metricT0 + int64(rng.Range(1, 4))*1e9
+		p := EvalP{Start: start, End: start + int64(rng.Range(3, 10))*1e9, Step: time.Duration(rng.Range(1, 2)) * time.Second}
+		fd := newFakeDocker(inv)
+		res, err := evalQuery(dockerQuerier(fd), q, p)
+		c.Eval(1)
+		det := map[string]any{"query": q, "params": p, "inventory": inv, "result": res}
+		if err != nil {
+			c.Fail("", "query failed: "+q+": "+err.Error(), det)
+			return
+		}
+		at, dup := resultAt(res)
+		if dup != "" {
+			c.Fail("", q+": "+dup, det)
+			return
+		}
+		for _, T := range gridTimes(p) {
+			for _, cs := range inv {
+				want := 0
+				for _, f := range cs.Frames {
+					if f.TS >= T-rg && f.TS <= T {
+						want++
+					}
+				}
+				name := strings.TrimPrefix(cs.Name, "/")
+				got, ok := at[T/1e6][labelKey(map[string]string{"container": name})]
+				if want == 0 && !ok {
+					continue
+				}
+				if !ok || got.V != float64(want) {
+					c.Fail("", fmt.Sprintf("%s: T=%s container %s: %v (present=%v), its log has %d records in the window", q, tsText(T), name, got.V, ok, want), det)
+					return
+				}
+				c.Count("container_window_points", 1)
+			}
+		}
+		c.Nontrivial(fmt.Sprintf("containers|%d", c.Idx))
+	})
+	r.Require("container_window_points", 1000)
+
 	r.Require("compared_points", 5000)
 	r.Require("edge_samples", 1000)
 	r.Require("shared_T_comparisons", 2000)
